@@ -3,6 +3,7 @@
 package mfgen
 
 import (
+	"regexp"
 	"strconv"
 	"strings"
 	"unicode/utf8"
@@ -426,6 +427,9 @@ func cutRange(st *Stream, s, z int64) {
 
 const canonLetters = "abcef123456789"
 
+var hintRe = regexp.MustCompile(`\+[A-Z][-A-Za-z0-9@_]*`)
+var hashRe = regexp.MustCompile(`[0-9a-f]{32}`)
+
 func canonHash(i int) string {
 	if i < len(canonLetters) {
 		return strings.Repeat(string(canonLetters[i]), 32)
@@ -538,6 +542,26 @@ func ShrinkText(text string, fails func(string) bool, budget int) (string, int) 
 			if try(strings.Join(append(append([]string{}, toks[:i]...), toks[i+1:]...), "")) {
 				progress = true
 				i--
+			}
+		}
+		// hints
+		for i := 0; ; i++ {
+			locs := hintRe.FindAllStringIndex(text, -1)
+			if i >= len(locs) {
+				break
+			}
+			if try(text[:locs[i][0]] + text[locs[i][1]:]) {
+				progress = true
+				i--
+			}
+		}
+		// canonical hashes
+		for i, loc := range hashRe.FindAllStringIndex(text, -1) {
+			h := canonHash(i % len(canonLetters))
+			if text[loc[0]:loc[1]] != h && text[loc[0]:loc[1]] != EmptyHash {
+				if try(text[:loc[0]] + h + text[loc[1]:]) {
+					progress = true
+				}
 			}
 		}
 		// bytes (only for short inputs)
